@@ -52,9 +52,10 @@ pub fn drive_stream(t: &mut Tracer, tier: &str, seed: u64, plan: Option<String>)
         run_requests(t, &sess(), &vec![0u8; 16], &k, &[1, 2]);
     }
     // (c) long streams with seeded random splits
-    let (streams, total) = if thorough { (8, 1usize << 16) } else { (3, 1500usize) };
-    for _ in 0..streams {
-        let (key, iv) = (rng.bytes(16), rng.bytes(16));
+    let (streams, total) = if thorough { (8, 1usize << 16) } else { (5, 4000usize) };
+    for si in 0..streams {
+        // the all-zero and all-one keys get long streams too (rare LFSR events need hundreds to thousands of steps)
+        let (key, iv) = match si { 0 => (vec![0u8; 16], vec![0u8; 16]), 1 => (vec![0xffu8; 16], vec![0xffu8; 16]), _ => (rng.bytes(16), rng.bytes(16)) };
         let mut reqs = vec![];
         let mut left = total;
         while left > 0 {
